@@ -334,9 +334,11 @@ class Grower:
                 return (s + n - 2) * w + rng.randrange(1, w)  # hi part of the jump word past the end
             if choice == 2:
                 return (s + n - 1) * w + rng.randrange(1, w)
-            page_edge = ((s + n // 2) // PAGE + 1) * PAGE  # an op straddling a page edge inside a segment
-            if s <= page_edge - 1 and page_edge < s + n:
-                return (page_edge - 1) * w
+            edges = [e for seg_s, seg_n in self.seg.list
+                     for e in range((seg_s // PAGE + 1) * PAGE, seg_s + seg_n, PAGE)][:8]
+            if edges:  # an op whose two words straddle a page edge inside a segment
+                edge = rng.choice(edges)
+                return (edge - 1) * w + (rng.randrange(1, w) if rng.random() < 0.3 else 0)
             return (s + n - 1) * w
         if kind == 'edge':
             s, n = rng.choice(self.seg.list)
@@ -467,3 +469,30 @@ def reference_run(case: Dict[str, Any], ring_len: Optional[int] = None, max_ops:
     if m.cause == CUT:
         raise RuntimeError('reference machine did not terminate on a kept case')
     return m
+
+
+def long_chain_case(rng: random.Random, w: int, n_ops: int) -> Dict[str, Any]:
+    """a straight-line program of n_ops ops (each flips a scratch bit and jumps to the next slot; some emit
+    output), ending in a halt: crosses the native engine's signal-poll cadence (2^18 ops) and grows the
+    speculation shadow table. built directly - the reference machine still supplies the expected outcome."""
+    words_needed = 2 * (n_ops + 2)
+    assert words_needed + 8 <= max_words(w)
+    mem = []
+    scratch_word = words_needed + 2
+    for i in range(n_ops):
+        slot = 2 * i if i else 0
+        flip = scratch_word * w + rng.randrange(w)
+        if i % 5000 == 7:
+            flip = 2 * w + (i // 5000) % 2
+        nxt = 2 * (i + 1) * w if i + 1 < n_ops else slot * w
+        if i == 1:
+            continue_slot = None
+            del continue_slot
+        mem.append([slot, flip])
+        mem.append([slot + 1, nxt])
+    # slot 1 (words 2,3) is the IO op area: the chain above used slot index i -> words 2i, 2i+1, including words 2,3;
+    # that is fine - they are ordinary ops here (flip targets never touch word 3's input bit because no op sits in the window
+    # except the one at 2w itself, which consumes one input bit)
+    segments = [[0, words_needed + 8]]
+    return {'w': w, 'segments': segments, 'mem': sorted([k, v] for k, v in mem if v), 'geom': 'long-chain',
+            'input': 'ff', 'cuts': [5, words_needed // 2 + 1]}
